@@ -136,3 +136,26 @@ CLAIMED["C07"] = {
     "design_ref": "DESIGN.md §4 C07, App. B.3",
     "note": TB + " specs/tokenizer.py is the reference.",
 }
+
+CLAIMED["C06"] = {
+    "engine": "E5 terminal/editor algebra over E2 event words",
+    "technique": "event words with symbolic guards extracted by abstract interpretation of MIR, composed with editor-operation and ECMA-48 effects and checked for synchronisation on every start shape up to a length bound",
+    "text": ("Decides that every successful path of every key arm, of Cli::write and of Cli::set_prompt (all paths and outcomes from the MIR, "
+             "guards on cursor/len kept, counted loops summarised by their trip count) maps a synchronised terminal/editor state to a "
+             "synchronised one, for every start state with up to 3 characters on each side of the cursor, two prompts and every modelled "
+             "typed/recalled/completed text; codes::* are compared with ECMA-48. Not decided: display width other than 1, wrapping, and "
+             "what depends on the editor being an ideal editor (C05's undecided part)."),
+    "design_ref": "DESIGN.md §4 C06, App. B.5",
+    "note": TB + " Editor operation effects and `is_dirty false => fresh line` are assumed as specified.",
+}
+CLAIMED["C11"] = {
+    "engine": "pipeline extraction + table evaluation",
+    "technique": "abstract interpretation of derive-generated code (iterator pipeline, predicates and for-each body extracted symbolically) evaluated on the declared constant table for every prefix request; sibling agreement with a declaration oracle",
+    "text": ("Decides for every derived Autocomplete impl of the corpus that exactly the names starting with the request reach "
+             "merge_autocompletion as `n[len(request)..]`, for every request that is a prefix of a declared name (truncating adaptors over "
+             "non-contiguous tables are reported with the names lost); group impls consult each visible member once and hidden ones never; "
+             "the Tab arm maps to one Editor::autocompletion whose closure merges the built-in help candidate iff `help` starts with the "
+             "request. Not decided: the value kept by merge_autocompletion (common continuation), buffer bounds (C03)."),
+    "design_ref": "DESIGN.md §4 C11",
+    "note": TB + " Quantifier over declarations is bounded by the corpus (fixtures/decls, integration tests, examples/desktop).",
+}
